@@ -195,6 +195,31 @@ def run(prog, rep):
     fr = tu.fn("p_tree_free")
     cs = [c.get("callee") for (b, i, c) in fr.calls()]
     okf = cs[:1] == ["p_tree_clear"] and "p_free" in cs
+    if not okf and "p_free" in cs and "p_tree_clear" not in cs:
+        # free shares the dismantling loop with clear instead of calling it: the same obligations, on free itself
+        r2 = TreeRun(fr, "clear", roles)
+        probs2, n2 = [], [0]
+
+        def check2(st):
+            for (Z, ln) in st.tags.get("freed", ()):
+                n2[0] += 1
+                for role, fld in (("kd", "key"), ("vd", "value")):
+                    lst = st.tags.get(role, ())
+                    kn = notifier_known(st, r2, role)
+                    if kn is not False and len([a for a in lst if a[0] == ("m0", ("fld", Z, fld))]) != 1:
+                        probs2.append(ln)
+                    if kn is not True and lst and not all(a[1] for a in lst):
+                        probs2.append(ln)
+
+        def on_widen2(st, hdr):
+            check2(st)
+            for k in ("kd", "vd", "freed", "stores", "pstores", "helpers", "nstores", "nlink"):
+                st.tags.pop(k, None)
+        r2.sf.on_widen = on_widen2
+        r2.run()
+        for (st, stmt, cur) in r2.rets:
+            check2(st)
+        okf = not probs2 and n2[0] > 0
     rep.ob("C14.3", fr, "free", okf, "p_tree_free clears the tree (destroying every pair) before releasing it" if okf else "p_tree_free does not clear the tree first (calls %s)" % cs, fr.loc[0])
     # notifiers are forwarded unchanged to the variant functions
     for fname, role in (("p_tree_insert", "insert_node_func"), ("p_tree_remove", "remove_node_func")):
